@@ -17,9 +17,28 @@ Definition F_length := 1. Definition F_upper := 2. Definition F_lower := 3. Defi
 Definition F_capitalize := 5. Definition F_string := 6. Definition F_abs := 7. Definition F_default := 8.
 Definition F_first := 9. Definition F_last := 10. Definition F_safe := 11. Definition F_escape := 12.
 Definition F_replace := 13. Definition F_join := 14. Definition F_format := 15. Definition F_list := 16.
+Definition F_items := 17.
 (* tests *)
 Definition T_defined := 1. Definition T_undefined := 2. Definition T_odd := 3. Definition T_even := 4.
-Definition T_none := 5.
+Definition T_none := 5. Definition T_mapping := 6.
+
+(* Attribute names.  1..7 are the loop attributes above; every other attribute name is the number
+   1000 + sum c_i * 128^i of its (ASCII, non-empty) characters c_0 c_1 ..  (tools/langenc.py::attr_id).
+   [attr_str] gives the string back: it is the key `m.name` looks up in a map. *)
+Fixpoint attr_chars (fuel : nat) (z : Z) : list Z :=
+  match fuel with
+  | O => []
+  | S f => if z <=? 0 then [] else (z mod 128) :: attr_chars f (z / 128)
+  end.
+Definition attr_str (a : name) : list Z :=
+  if a =? A_index then [105; 110; 100; 101; 120]
+  else if a =? A_index0 then [105; 110; 100; 101; 120; 48]
+  else if a =? A_revindex then [114; 101; 118; 105; 110; 100; 101; 120]
+  else if a =? A_revindex0 then [114; 101; 118; 105; 110; 100; 101; 120; 48]
+  else if a =? A_length then [108; 101; 110; 103; 116; 104]
+  else if a =? A_first then [102; 105; 114; 115; 116]
+  else if a =? A_last then [108; 97; 115; 116]
+  else attr_chars 64 (a - 1000).
 
 Inductive lit := LInt (z : Z) | LStr (s : list Z) | LBool (b : bool) | LNone.
 
@@ -30,6 +49,7 @@ Inductive expr :=
 | EConst (l : lit)
 | EVar (x : name)
 | EList (items : list expr)
+| EMap (pairs : list (expr * expr))             (* {k: v, ..}: ast::Map, keys and values in source order *)
 | ENeg (e : expr)
 | ENot (e : expr)
 | EBin (op : binop) (a b : expr)
@@ -50,9 +70,9 @@ Inductive stmt :=
 | SEmit (e : expr)
 | SIf (arms : list (expr * list stmt)) (els : option (list stmt))
 | SFor (t : target) (iter : expr) (filter : option expr) (body : list stmt) (els : option (list stmt)) (recursive : bool)
-| SSet (x : name) (e : expr)
+| SSet (t : target) (e : expr)                 (* `set x = e` / `set x, y = e` *)
 | SSetBlock (x : name) (body : list stmt) (filter : option name)
-| SWith (binds : list (name * expr)) (body : list stmt)
+| SWith (binds : list (target * expr)) (body : list stmt)   (* `with x = e, (y, z) = f` *)
 | SMacro (m : name) (params : list name) (defaults : list (name * expr)) (body : list stmt)
 | SCallBlock (m : name) (args : list expr) (body : list stmt)
 | SFilterBlock (f : name) (body : list stmt)
@@ -71,6 +91,9 @@ Inductive value :=
 | VInt (z : Z)
 | VStr (safe : bool) (s : list Z)
 | VList (l : list value)
+| VMap (entries : list (value * value))   (* ValueMap of the default build = BTreeMap<Value, Value>: entries in
+                                             ascending key order (impl Ord for Value), no two keys equal in that
+                                             order; built only through Interp.map_insert *)
 | VMacro (m : macro) (closure : option nat)
 | VLoop (idx len : Z)
 | VFunc (f : name).           (* a global function of the environment (range) *)
